@@ -71,6 +71,15 @@ def gen(ctx):
         cases.append(dict(filter="[(tocbor | fromcbor), ([., .] | tocbor | fromcbor | .[1])]", inputs=[v], kind="cbor"))
     for v in toml_values(rng, tier):
         cases.append(dict(filter="[(totoml | fromtoml), totoml]", inputs=[from_json(v)], kind="toml", py=v))
+    # sizes around the length encodings and pre-allocation bounds of the formats
+    sizes = [0, 1, 23, 24, 25, 255, 256, 257, 1023, 1024, 1025, 1500, 3000] + ([65535, 65536, 70000] if tier != "quick" else [65536])
+    for n in sizes:
+        mk = ["[range($n)]", "(\"a\" * $n) // \"\"", "((\"a\" * $n) // \"\" | tobytes)", "([range($n) | {key: tostring, value: .}] | from_entries)",
+              "[[range($n)], {a: [range($n)], b: [[range($n)]]}]", "[range($n) | [.]]", "({k: [range($n) | tostring]})"]
+        for m in mk:
+            cases.append(dict(filter="[%s | ((tocbor | fromcbor) == .), ((toyaml | fromyaml) == .)]" % m, vars=[("n", I(n))], inputs=["null"], kind="sizes", n=n, mk=m))
+        cases.append(dict(filter="[({a: [range($n)], b: {c: [range($n) | {d: .}]}} | (totoml | fromtoml) == .), ([range($n)] | select(length > 0) | [tocsv | fromcsv] == [.]), ([range($n) | \"s\\(.)\"] | select(length > 0) | [totsv | fromtsv] == [.])]",
+                          vars=[("n", I(n))], inputs=["null"], kind="sizes", n=n, mk="toml/csv/tsv"))
     # model correspondence: the writer alone, the resolution of plain scalars alone, the tabular reader on raw text
     for v in yaml_values(rng, tier):
         cases.append(dict(filter="toyaml", inputs=[v], kind="yaml-write"))
@@ -163,6 +172,12 @@ def oracle(c, impl, model=None):
     k = c["kind"]
     v = c["inputs"][0]
     ok = impl[2] == "end" and len(impl[1]) == 1
+    if k == "sizes":
+        if not ok:
+            return ("sizes-error", "round trip of %s with n=%d fails: %s" % (c["mk"], c["n"], sx.dumps(impl)[:200]))
+        if any(x != "true" for x in impl[1][0][1:]):
+            return ("sizes-roundtrip", "%s with n=%d does not round-trip: %s (cbor, yaml | toml, csv, tsv)" % (c["mk"], c["n"], sx.dumps(impl[1][0])[:80]))
+        return None
     if k == "yaml":
         if has_invalid_utf8(v):
             return None
